@@ -23,3 +23,14 @@ TEXT = dict(
     text='For every message list and option combination the model encoder writes a header whose data size is the exact record byte count, a correct header CRC and — for 14-byte headers — a file CRC equal to the CRC-16 of every preceding byte of the sequence; the decoder model accepts the result with checksums on (one sequence per FIT value). On the implementation the same is evaluated directly: the bytes written by the real encoder (4 writer kinds × 10 buffer sizes × chained files) must parse under the independent spec with correct CRCs and match the header/CRC stored back into the caller. 12-byte headers store a records-only CRC (known finding). C02_wellformed: for chains of any length with 14-byte headers, encodeChain is WellFormed under FitFormat (parses with nothing between or after sequences; headerCrcOk and fileCrcOk hold for every sequence view, evaluated on the whole stream through the view offsets) with seqs.length = fits.length; C02_wellformed_mixed: the same per sequence for mixed chains - headerCrcStrict/headerCrcOk always, fileCrcOk exactly for the sequences with a 14-byte header, and for a 12-byte header: no header CRC and stored file CRC = CRC-16 of the records only (what the code does; KF-C02-legacy-crc).',
     note='Trusted: Lean kernel, FitFormat spec as written, harness/driver. The whole-stream statement is proved through the SeqView offsets of a chain (C02_wellformed, C02_wellformed_mixed; bookkeeping lemmas FitProps/C02ChainLemmas.lean). C02_wellformed_full (no restriction on the header size) stays a def: it is refuted for 12-byte headers by C02_legacy_crc_witness (open finding KF-C02-legacy-crc).',
 )
+
+# --- tie by translation (translators/go2lean, notes/go2lean.md + notes/go2lean-add-p.md; agreement theorems in
+# lean/FitProps/Go2LeanProtoMarshal.lean / Go2LeanEncoderMesgDef.lean, restated in lean/FitProps/C02Go2Lean.lean). A block of its own.
+PROP['regen'] = PROP['regen'] + ['go2lean:protomarshal', 'go2lean:encodermesgdef']
+PROP['go2lean_diff'] = PROP.get('go2lean_diff', []) + ['ProtoMarshal']
+PROP['theorems'] = PROP['theorems'] + [
+    'Fit.C02.C02_go2lean_def_wire',
+    'Fit.C02.C02_go2lean_enc_def_wire',
+    'Fit.C02.C02_go2lean_def_length']
+PROP['trusted_base'] = PROP['trusted_base'] + [
+    "translators/go2lean (Go→Lean for a small subset of Go, notes/go2lean.md) re-translates proto/proto_marshal.go MessageDefinition.MarshalAppend (the whole function) and the statements of encoder.newMessageDefinition that set header / reserved / architecture / message number / developer-data flag from the current source on every run (units protomarshal, encodermesgdef); C02_go2lean_* state that for every message, byte order and buffer the translated code appends exactly Fit.Wire.defBytes (the definition records of the model C02's theorems are about) and that a definition record has 6 + 3·fields (+ 1 + 3·developer fields) bytes; trusted: the translator's rendering of the subset incl. binary.*.AppendUint16 as Go.le16 / Go.be16 (go/types computes constants and types) and FitModel/GoPrelude.lean; the loops of newMessageDefinition over proto.Value are outside the subset (tied by the correspondence families)"]
